@@ -1,10 +1,109 @@
 import Driver.Common
+import RxModel.Subj
+import RxModel.SubjReplay
 open Lean Drv
 
 namespace DrvSubj
+open Subj
 
-def handle (op : String) (_j : Json) : Except String Json := do
+def notifToJson : Notif Val → Json
+  | .next v => Json.arr #[.str "N", valToJson v]
+  | .error e => Json.arr #[.str "E", .str e]
+  | .completed => Json.arr #[.str "C"]
+
+def actionOfJson (j : Json) : Except String Action :=
+  match j with
+  | .arr #[.str "unsub", n] => do pure (.unsub (← n.getNat?))
+  | .arr #[.str "sub", n] => do pure (.sub (← n.getNat?))
+  | .arr #[.str "dispose"] => pure .dispose
+  | _ => throw s!"bad action {j.compress}"
+
+def callOfJson (j : Json) : Except String (Call Val) :=
+  match j with
+  | .arr #[.str "sub", n] => do pure (.sub (← n.getNat?))
+  | .arr #[.str "unsub", n] => do pure (.unsub (← n.getNat?))
+  | .arr #[.str "next", v] => do pure (.next (← valOfJson v))
+  | .arr #[.str "error", .str e] => pure (.error e)
+  | .arr #[.str "completed"] => pure .completed
+  | .arr #[.str "dispose"] => pure .dispose
+  | _ => throw s!"bad call {j.compress}"
+
+structure ObsSpec where
+  err : Bool
+  react : List (Nat × List Action)
+
+def obsOfJson (j : Json) : Except String ObsSpec := do
+  let err ← getBool j "err"
+  let rs ← (← getArr j "react").mapM fun p =>
+    match p with
+    | .arr #[n, .arr acts] => do pure ((← n.getNat?), (← acts.toList.mapM actionOfJson))
+    | _ => throw "bad react entry"
+  pure { err, react := rs }
+
+def cfgOf (kind : Kind) (os : List ObsSpec) : Cfg :=
+  { kind
+    hasErr := fun i => match os[i]? with | some o => o.err | none => true
+    react := fun i k => match os[i]? with
+      | some o => (match o.react.find? (fun p => p.1 == k) with | some p => p.2 | none => [])
+      | none => [] }
+
+def getOptNat (j : Json) (k : String) : Except String (Option Nat) :=
+  match j.getObjVal? k with
+  | .ok .null => pure none
+  | .ok v => do pure (some (← v.getNat?))
+  | .error _ => pure none
+
+def evToJson : Replay.EvR → Json
+  | .call k now => Json.arr #[.str "call", .num (JsonNumber.fromNat k), .num (JsonNumber.fromNat now)]
+  | .sub j now => Json.arr #[.str "sub", .num (JsonNumber.fromNat j), .num (JsonNumber.fromNat now)]
+  | .unsub j => Json.arr #[.str "unsub", .num (JsonNumber.fromNat j)]
+  | .dispose => Json.arr #[.str "dispose"]
+  | .cb i now => Json.arr #[.str "cb", .num (JsonNumber.fromNat i), .num (JsonNumber.fromNat now)]
+
+def optErr : Option Err → Json
+  | some e => .str e
+  | none => .null
+
+def handle (op : String) (j : Json) : Except String Json := do
   match op with
+  | "subj" =>
+    let kind ← (do
+      match (← getStr j "kind") with
+      | "subject" => pure Kind.subject
+      | "behavior" => pure Kind.behavior
+      | "async" => pure Kind.async
+      | k => throw s!"bad kind {k}" : Except String Kind)
+    let os ← (← getArr j "observers").mapM obsOfJson
+    let calls ← (← getArr j "calls").mapM callOfJson
+    let initial ← (match kind with
+      | .behavior => do pure (some (← getVal j "init"))
+      | _ => pure none : Except String (Option Val))
+    let cfg := cfgOf kind os
+    let (st, raised) := run cfg 100000 (init cfg initial) calls
+    let logs := (List.range os.length).map fun i => Json.arr (((st.log i).map notifToJson).toArray)
+    pure (Json.mkObj [("logs", Json.arr logs.toArray),
+                      ("xs", Json.arr (st.xlog.map fun (i, e) => Json.arr #[.num (JsonNumber.fromNat i), .str e]).toArray),
+                      ("raised", Json.arr (raised.map optErr).toArray),
+                      ("oof", .bool st.oof)])
+  | "replay" =>
+    let os ← (← getArr j "observers").mapM obsOfJson
+    let calls ← (← getArr j "calls").mapM fun p =>
+      match p with
+      | .arr #[t, c] => do pure ((← t.getNat?), (← callOfJson c))
+      | _ => throw "bad timed call"
+    let buffer ← getOptNat j "buffer"
+    let window ← getOptNat j "window"
+    let c0 := cfgOf Kind.subject os
+    let cfg : Replay.Cfg := { bufferSize := buffer, window := window, hasErr := c0.hasErr, react := c0.react }
+    let st := Replay.run cfg 1000000 calls
+    let logs := (List.range os.length).map fun i =>
+      Json.arr (((st.log i).map fun (t, n) => Json.arr #[.num (JsonNumber.fromNat t), notifToJson n]).toArray)
+    pure (Json.mkObj [("logs", Json.arr logs.toArray),
+                      ("xs", Json.arr (st.xlog.map fun (i, e) => Json.arr #[.num (JsonNumber.fromNat i), .str e]).toArray),
+                      ("raised", Json.arr (st.raised.map fun (k, e) => Json.arr #[.num (JsonNumber.fromNat k), .str e]).toArray),
+                      ("crashed", optErr st.crashed),
+                      ("order", Json.arr (st.evs.map evToJson).toArray),
+                      ("idle", .bool (Replay.idle st))])
   | _ => throw s!"unknown op {op}"
 
 end DrvSubj
